@@ -65,13 +65,14 @@ class Report:
                 new.append(v)
         wall = time.time() - self.t0
         ev = self.evidence(len(new), len(kf), wall)
-        os.makedirs(os.path.join(VERIF, "evidence"), exist_ok=True)
-        with open(os.path.join(VERIF, "evidence", "%s.json" % self.pid), "w") as fh:
+        evdir = os.environ.get("FPV_EVIDENCE_DIR") or os.path.join(VERIF, "evidence")
+        os.makedirs(evdir, exist_ok=True)
+        with open(os.path.join(evdir, "%s.json" % self.pid), "w") as fh:
             json.dump(ev, fh, indent=1)
         for v, k in kf:
             print("KNOWN-FINDING: property=%s %s [%s] %s" % (self.pid, k.get("what", ""), v["fullkey"], v["where"]))
         if new:
-            replay = os.path.join(VERIF, "evidence", "%s.replay.json" % self.pid)
+            replay = os.path.join(evdir, "%s.replay.json" % self.pid)
             with open(replay, "w") as fh:
                 json.dump({"property": self.pid, "violations": new}, fh, indent=1, default=str)
             for v in new:
